@@ -76,6 +76,10 @@ def mk(kind: str, tc: bool, i: int) -> bytes:
         return f(S8, b"", reserved=HASH[S8])
     if kind == "nonzero-for-signal":
         return f(G0, pay[:4], reserved=HASH[G0])
+    if kind == "smaller-badver":  # wrong in two ways at once: what a sender with out-of-date definitions produces
+        return f(S8, pay[:4], reserved=HASH[S8] ^ 1)
+    if kind == "larger-badver":
+        return f(S8, pay[:12], reserved=HASH[S8] ^ 0x100)
     if kind == "badver":
         return f(S8, pay[:8], reserved=HASH[S8] ^ 1)
     if kind == "ver0":
@@ -341,6 +345,16 @@ def cases(tier: str) -> List[Dict[str, Any]]:
                     for how in ("fin", "rst"):
                         for to, ack, sync in ((0.1, False, False), (-1, False, True)) if n > 1 else params[:8:3] + params[8::3]:
                             out.append(dict(tc=tc, kinds=list(seq), timeout=to, ack=ack, sync=sync, close=[how, off]))
+    # frames that are undecodable for two reasons at once, alone / before / after / between every other kind
+    for tc in (False, True):
+        for k2 in ("smaller-badver", "larger-badver"):
+            seqs = [(k2,), (k2, k2)] + [(k2, x) for x in KINDS] + [(x, k2) for x in KINDS] + [(x, k2, "good") for x in ("good", "unsub", "unkN", "badver")]
+            for seq in seqs:
+                for to, ack, sync in params:
+                    if tier == "quick" and tc and to not in (0.1, -1):
+                        continue
+                    out.append(dict(tc=tc, kinds=list(seq), timeout=to, ack=ack, sync=sync))
+                out.append(dict(tc=tc, kinds=list(seq), timeout=0.1, ack=False, sync=True, init="all"))
     # a frame arriving in two segments, cut at every offset, followed by a good frame
     for tc in (False, True):
         for kind in KINDS:
